@@ -152,6 +152,8 @@ def decode_value(v: Any, objs: dict) -> Any:
     if '$bad' in v:
         import numpy as np
         how = v['$bad']
+        if how == 'object':
+            return object()
         if how == 'int':
             return 5
         if how == 'txt-path':
